@@ -80,7 +80,8 @@ void init_poles(FT pole[2], int& npoles, FT& weight, const int order) {
 template<typename FT>
 void spline_filter1d(numpy::aligned_array<FT> array, const int order, const int axis) {
     gil_release nogil;
-    const FT log_tolerance = -16.;
+    /* sum the initial causal coefficient until its terms drop below 1e-15 (as scipy.ndimage does) */
+    const FT log_tolerance = log(FT(1e-15));
     if (axis >= array.ndims()) {
         throw PythonException(PyExc_RuntimeError, "Unexpected state.");
     }
